@@ -199,7 +199,7 @@ def base(draw):
         inner = draw(st.lists(st.integers(0, 4), min_size=1, max_size=3, unique=True))
         items.append((o, inner))
         labels += [(o, i) for i in inner]
-    return {'kind': 'ih', 'labels': labels, 'route': 'from_index_items', 'items': items, 'go': go}
+    return {'kind': 'ih', 'labels': labels, 'route': 'from_index_items', 'items': items, 'go': go, 'items_go': draw(st.booleans())}
 
 
 def construct(b):
@@ -218,6 +218,10 @@ def construct(b):
             return cls.from_product(*[sf.IndexDate(l) if isinstance(l[0], np.datetime64) else l for l in b['lists']])
         if route == 'from_tree':
             return cls.from_tree(b['tree'])
+        if b.get('items_go'):
+            # the component indices are grow-only and are grown after the hierarchy was built (see _check)
+            b['_sources'] = [sf.IndexGO(inner) for _, inner in b['items']]
+            return cls.from_index_items((o, src) for (o, _), src in zip(b['items'], b['_sources']))
         return cls.from_index_items((o, sf.Index(inner)) for o, inner in b['items'])
     if kind == 'date':
         cls = sf.IndexDateGO if go else sf.IndexDate
@@ -306,6 +310,11 @@ def _check(case):
         reorder_unspecified = True
     classes = ['kind:' + b['kind'], 'route:' + b['route'], 'go' if b['go'] else 'static']
     check_index(ix, model, 'constructed(%s)' % b['route'], auto=b['kind'] == 'auto' and len(model) > 0)
+    if b.get('_sources'):
+        for src in b.pop('_sources'):
+            src.append(9990)
+        check_index(ix, model, 'constructed(from_index_items) after its grow-only component indices grew')
+        classes.append('component-sources-grown')
     grown = False
     for dv in case['derivs']:
         d = dv['d']
